@@ -35,12 +35,17 @@ NBlocks(G) == Cardinality(UNION {LET ix == Index(G, G.rules[ri], 1)[1] IN {<<ri,
                                  : ri \in 1..Len(G.rules)})
 NamesInjective(G) == Cardinality({m.name : m \in Methods(G)}) = NBlocks(G)
 
-ObsMethods(o) == {[name |-> o.methods[i][1], params |-> o.methods[i][2]] : i \in 1..Len(o.methods)}
+(* The property fixes how many methods there are and which labels each receives, not how they are called: the     *)
+(* observed methods are compared with the predicted ones as a BAG of parameter lists (the names only have to be   *)
+(* distinct, which the extraction guarantees); the naming scheme of the code as built matters only for F13.       *)
+ObsParams(o) == {o.methods[i][2] : i \in 1..Len(o.methods)}
+ObsCount(o, ps) == Cardinality({i \in 1..Len(o.methods) : o.methods[i][2] = ps})
+ExpCount(G, ps) == Cardinality({m \in Methods(G) : m.params = ps})
 Verdict(o) ==
   LET G == Groups[o.gi] IN
   IF ~NamesInjective(G) THEN <<"names-clash", 0>>               \* the emitted file cannot compile (F13)
   ELSE IF Len(o.methods) # NBlocks(G) THEN <<"method-count", Len(o.methods)>>
-  ELSE IF ObsMethods(o) # Methods(G) THEN <<"method-params", 0>>
+  ELSE IF \E ps \in ObsParams(o) \cup {m.params : m \in Methods(G)} : ObsCount(o, ps) # ExpCount(G, ps) THEN <<"method-params", 0>>
   ELSE <<"same", 0>>
 
 VARIABLES k, bad
